@@ -1,7 +1,7 @@
 #!/bin/sh
 # runs every thorough tier once, prints one line per check (exit, wall seconds)
 cd "$(dirname "$0")/.."
-for c in C01 C02 C03 C04 C05 C06 C07 C08 C09 C10 C11 C12 C13 C14 C15 C16 C17 C18 C19 C20; do
+for c in ${CHECKS:-C02 C03 C04 C05 C06 C07 C08 C09 C10 C11 C12 C13 C14 C15 C16 C17 C18 C19 C20 C01}; do
   S=$(date +%s); OUT=$(./vcheck $c --tier thorough 2>&1); RC=$?; E=$(date +%s)
   echo "THOROUGH $c exit=$RC wall=$((E-S))s $(printf '%s\n' "$OUT" | grep "tier=thorough" | cut -c1-200)"
   printf '%s\n' "$OUT" | grep -E "VIOLATION|HARNESS|class |Traceback|Error" | head -5
